@@ -417,7 +417,10 @@ def check(pid, tier, seed):
     nexec = len(tgt["execs"])
     allhashes = set()
     worker_base = 0
+    only = [x for x in os.environ.get("VERIF_EXECS", "").split(",") if x]    # development aid: restrict to some executors
     for ex in tgt["execs"]:
+        if only and ex["name"] not in only:
+            continue
         binpath = build_exec(pid, ex)
         flags = ["--thorough"] if tier == "thorough" else []
         # -- 1. regression tapes (fixed findings + earlier discoveries) and open findings
